@@ -262,7 +262,10 @@ Definition unop (op : str) (w : world) (v : value) : value :=
 Definition cmp_fuel (w : world) : nat := S (length (w_arrs w) + length (w_objs w)).
 
 Definition relop (w : world) (a b : value) (test : comparison -> bool) : outcome :=
-  match vcompare (cmp_fuel w) w a b with Some c => OVal (VBool (test c)) | None => OFuel end.
+  match vcompare (cmp_fuel w) w a b with
+  | Some c => OVal (VBool (test c))
+  | None => OVal VNull          (* a value that contains itself: RecursionError, contained by the operator handler (F29) *)
+  end.
 
 Definition concat_str (l : str) (r : ares str) (left_first : bool) : outcome :=
   match r with
